@@ -1000,7 +1000,7 @@ impl Cx {
 // ---------------------------------------------------------------------------------------------
 fn mode_prog(work: &str, seed: u64, thorough: bool) {
 	let mut cx = Cx::new(&format!("{}/prog", work), seed);
-	let n = if thorough { 6000 } else { 900 };
+	let n = if thorough { 4000 } else { 900 };
 	for i in 0..n {
 		cx.top_batch(3);
 		// reads between batches (no batch open: outside = the only view)
@@ -1115,7 +1115,7 @@ fn mode_pages(work: &str, seed: u64, thorough: bool) {
 fn mode_resize(work: &str, seed: u64, thorough: bool) {
 	let dir = format!("{}/resize", work);
 	let mut cx = Cx::new(&dir, seed);
-	let nb = if thorough { 420 } else { 110 };
+	let nb = if thorough { 420 } else { 130 };
 	let mut last_map = meta_info(&dir).map(|m| m.0).unwrap_or(0);
 	let first_map = last_map;
 	let mut resizes = 0u64;
@@ -1157,8 +1157,16 @@ fn mode_resize(work: &str, seed: u64, thorough: bool) {
 		cx.sh.stack.push(vec![]);
 		cx.st.op("begin");
 		cx.line("kv begin", "ok");
-		let nput = cx.rng.range(1, 3);
+		// Volume of one batch: Store::batch() only guarantees that at most 90 % of the map is
+		// used when the write transaction starts, and the map cannot grow inside a batch, so a
+		// batch may rely on 10 % of the map being free.  Stay below half of that (the oversize
+		// case is probed separately at the end).
+		let mut budget = ((last_map / 22) as usize).max(45_000);
+		let nput = cx.rng.range(1, 6);
 		for _ in 0..nput {
+			if budget < 8_000 {
+				break;
+			}
 			let db = *cx.rng.pick(&all_dbs());
 			// mostly fresh keys (growth), sometimes overwrite / delete of an old one
 			let r = cx.rng.below(10);
@@ -1176,7 +1184,8 @@ fn mode_resize(work: &str, seed: u64, thorough: bool) {
 				cx.line(&format!("kv del {} {}", db_tok(db), hex(&key)), &ans);
 				continue;
 			}
-			let len = cx.rng.range(20_000, 60_000) as usize;
+			let len = cx.rng.range(8_000, budget.min(60_000) as u64) as usize;
+			budget -= len;
 			let v = vec![cx.rng.next() as u8; len];
 			let ans = if cx.rng.chance(1, 3) && len < 90_000 {
 				// through put_ser with a Vec<u8> value (raw bytes)
@@ -1198,12 +1207,12 @@ fn mode_resize(work: &str, seed: u64, thorough: bool) {
 			cx.line(&format!("kv put {} {} {}", db_tok(db), hex(&key), valtok(&v)), &ans);
 		}
 		// a nested child with a big value, committed or dropped
-		if cx.rng.chance(1, 3) {
+		if budget >= 4_000 && cx.rng.chance(1, 2) {
 			let mut c = b.child().unwrap();
 			cx.sh.stack.push(vec![]);
 			cx.line("kv child", "ok");
 			let key = format!("child{:05}", i).into_bytes();
-			let v = vec![0xcc; cx.rng.range(10_000, 30_000) as usize];
+			let v = vec![0xcc; cx.rng.range(4_000, budget.min(30_000) as u64) as usize];
 			let ans = fmt_unit(c.put(Some(b'Z'), &key, &v));
 			if ans != "ok" {
 				failed_ops += 1;
@@ -1232,8 +1241,10 @@ fn mode_resize(work: &str, seed: u64, thorough: bool) {
 			if ans != "ok" {
 				failed_ops += 1;
 				cx.oracle_fail(format!("commit failed at batch {}", i));
+				cx.sh.stack.pop();
+			} else {
+				cx.sh.commit();
 			}
-			cx.sh.commit();
 			cx.st.commits[1] += 1;
 			cx.line("kv commit", &ans);
 			// the decision needs_resize took inside Store::batch(), as far as it is observable:
@@ -1606,6 +1617,10 @@ fn main() {
 	let seed = seed_from_env();
 	let thorough = tier_thorough();
 	global::set_local_chain_type(ChainTypes::AutomatedTesting);
+	if std::env::var("KV_DEBUG_LOG").is_ok() {
+		// debugging aid only: grin's debug log (resize decisions) interleaved on stdout
+		grin_util::init_test_logger();
+	}
 	if mode == "crash-child" {
 		let dir = &args[2];
 		let kind = &args[3];
